@@ -456,6 +456,21 @@ fn gen_history(r: &mut Rng, pool: &[Vec<u8>], paths: &[&str]) -> (Tree, Tree, Ve
             let (c1, c2) = (pool[1].clone(), pool[2].clone());
             ops = vec![Op::Write(true, p.clone(), c1.clone()), Op::Write(false, p.clone(), c2.clone()), Op::Run, Op::Write(true, p.clone(), c1.clone()), Op::Write(false, p.clone(), c2.clone()), Op::Run, Op::Run];
         }
+        3 => {
+            // the conflict copy produced by an earlier run is edited, then the same conflict (same losing content) repeats
+            class = "directed:edited-conflict-copy";
+            let p = paths[0].to_string();
+            let mut cs: Vec<Vec<u8>> = vec![pool[1].clone(), pool[2].clone(), pool[3].clone()];
+            cs.sort_by_key(|c| h32(c));
+            let (lo, mid, hi) = (cs[0].clone(), cs[1].clone(), cs[2].clone());
+            // 1st conflict: lo vs mid -> lo loses, copy at q; then q is edited; 2nd conflict: lo vs hi -> lo loses AGAIN, same q
+            let q = format!("{}.conflict-vphost-{}", p, &hex(&h32(&lo))[..12]);
+            a.clear();
+            b.clear();
+            ops = vec![Op::Write(true, p.clone(), lo.clone()), Op::Write(false, p.clone(), mid.clone()), Op::Run,
+                       Op::Write(r.chance(1, 2), q, b"edited by the user".to_vec()),
+                       Op::Write(true, p.clone(), lo.clone()), Op::Write(false, p.clone(), hi.clone()), Op::Run, Op::Run];
+        }
         2 => {
             class = "directed:fault-first";
             ops.push(Op::Run);
